@@ -233,6 +233,8 @@ func c01(c *ev.Ctx) {
 	c.Extra("exhaustive_table", true)
 	c.Extra("table_cells", len(cells)+len(ucells))
 	c01RegexpOperators(c)
+	// fields, index and '.' over objects whose shape could mislead the conversion (stream shared with C04)
+	c04Shapes(c)
 }
 
 // c01RegexpOperators: ~= and !~ (and the regexp's printed form) for patterns of every
